@@ -982,6 +982,34 @@ func exprHasThis(e *Expr) bool {
 	return false
 }
 
+// giantVariant returns a valid model with more than 18 000 relations that
+// contains every type#relation label of m (all relations directly assignable
+// by one terminal type): what a process may well have built before it builds m
+// (size thresholds of pooled or cached state lie far above every fixture).
+func giantVariant(m *Model) *Model {
+	g := &Model{Schema: "1.1"}
+	user := "zzuser"
+	g.Types = append(g.Types, &Type{Name: user})
+	for _, t := range m.Types {
+		if t.Name == user {
+			continue
+		}
+		nt := &Type{Name: t.Name}
+		for _, rel := range t.Relations {
+			nt.Relations = append(nt.Relations, &Relation{Name: rel.Name, Expr: &Expr{Kind: KThis}, Direct: []Ref{{Type: user}}})
+		}
+		g.Types = append(g.Types, nt)
+	}
+	for i := 0; i < 140; i++ {
+		nt := &Type{Name: fmt.Sprintf("zzf%03d", i)}
+		for j := 0; j < 130; j++ {
+			nt.Relations = append(nt.Relations, &Relation{Name: fmt.Sprintf("r%03d", j), Expr: &Expr{Kind: KThis}, Direct: []Ref{{Type: user}}})
+		}
+		g.Types = append(g.Types, nt)
+	}
+	return g
+}
+
 // injectInterning makes 1-3 relations anywhere in the model repeat the operator
 // rewrite of another relation (keeping their own type restrictions: the same
 // rewrite means something else in another relation or type) and renders every
